@@ -71,6 +71,9 @@ def run(rep, tier):
     from checks import c02
     with rep.part('union unknown variants'):
         c02.run_union(rep, prog, 'C10')
+    for fail in battery_union_payloads():
+        rep.violation('C10:native-twin:payload', f'native twin: {fail}', {'native': fail})
+    rep.replayed += 2 * len(PAYLOADS)
     # native twins: every listed value and some unlisted ones through from_str, from_plain and the serde-derived JSON path
     # (the derive expansion is not executed symbolically); all paths must agree and round-trip the spelling
     texts = list(LISTED_ENUM) + [b'X9', b'one', b'HTTP2', b'SHA3512', b'TWO__B', b'TWOB']
@@ -85,6 +88,34 @@ def run(rep, tier):
     rep.assumptions += ['serde-derive expansions of the generated enum (untagged Unknown arm, Content buffering) are not executed: the enum is entered through its generated FromStr/FromPlain (which the derive-free paths share with deserialization via Variant)',
                         'union documents arrive as key/value events; payloads are abstract tokens (their losslessness is C13)']
     rep.outside += [f'names longer than {K} bytes', 'definitions outside the IR family']
+
+
+# payloads of an unlisted union variant: every JSON kind, integers at the 64-bit edges, texts that look like Conjure spellings
+PAYLOADS = ['18446744073709551615', '9223372036854775808', '-9223372036854775808', '9223372036854775807', '0', '-1', '1.5', '1e300', '-2.5e-7', 'null', 'true',
+            '"NaN"', '"Infinity"', '""', '[]', '{}', '[1,[2,{"a":null}],"x"]', '{"k":{"type":"t","t":[18446744073709551615,-9223372036854775808]},"l":[true,false]}',
+            '{"type":"inner","inner":1}', '[0.1,1E2,-0.0]']
+
+
+def battery_union_payloads():
+    """an unlisted variant with any JSON payload re-serializes to a document equivalent to the input (numbers compared exactly:
+    integers as integers, non-integers as doubles), in both member orders"""
+    import json as _json
+    norm = lambda t: _json.loads(t, parse_int=lambda x: ('int', int(x)), parse_float=lambda x: ('float', float(x)))
+    docs = []
+    for pl in PAYLOADS:
+        docs.append(('{"type":"zzz","zzz":%s}' % pl, pl))
+        docs.append(('{"zzz":%s,"type":"zzz"}' % pl, pl))
+    out = []
+    for (d, pl), r in zip(docs, replay([{'op': 'gen_union', 'doc': d} for d, _ in docs])):
+        want = norm('{"type":"zzz","zzz":%s}' % pl)
+        got = r.get('reserialized')
+        try:
+            same = got is not None and norm(got) == want and r.get('default') == 'Unknown(zzz)' and r.get('exhaustive') == 'err'
+        except ValueError:
+            same = False
+        if not same:
+            out.append(f'unlisted variant document {d} -> {r}')
+    return out
 
 
 def run_variant_delivery(rep, prog, K):
